@@ -479,12 +479,12 @@ Corollary markup_reject_not_accept s : cpy_markup_ok s = false -> nested_guard (
 Proof. intros Hm Hg sg Hp. rewrite (accept_implies_markup s sg Hp Hg) in Hm. discriminate. Qed.
 End Fields.
 
-(* Python rejects, the guards hold => the parser's own error *)
-Theorem reject_if_markup_rejects U M : ucd_chars U -> ucd_ok U -> digits_are_decimal U -> forall s,
+(* Python rejects, the guard holds => the parser's own error *)
+Theorem reject_if_markup_rejects U M : ucd_chars U -> ucd_ok U -> forall s,
   cpy_markup_ok s = false -> nested_guard U (S (length s)) s = true -> exists e, pybrace_parse U M s = Err e.
 Proof.
-  intros Hc Hok Hd s Hm Hg. destruct (pybrace_parse U M s) as [sg|e|c] eqn:Ep.
+  intros Hc Hok s Hm Hg. destruct (pybrace_parse U M s) as [sg|e|c] eqn:Ep.
   - exfalso. exact (markup_reject_not_accept U M Hc s Hm Hg sg Ep).
   - eauto.
-  - exfalso. exact (pybrace_own_errors U M Hok Hd s c Ep).
+  - exfalso. exact (pybrace_own_errors U M Hok s c Ep).
 Qed.
